@@ -544,8 +544,11 @@ func genFinal(x *netctl.Exec) {
 				x.Violate("commit-ok-not-visible", "transaction %s: EndTransaction(TryCommit) returned nil, record %s (promise nil before the call) is not in the read_committed view; %s", tx.name, n, calls)
 			}
 		case c > 0:
-			var ke *kerr.Error
-			excusable := tx.commitCall && tx.commitErr != nil && tx.CommitReqs > 0 && !errors.As(tx.commitErr, &ke)
+			// As in family T: a TryCommit that returned an error after its EndTxn
+			// request reached the broker is an unconfirmed outcome, whatever the
+			// error says (a lost response followed by a retry that is answered
+			// PRODUCER_FENCED because a successor took the id over meanwhile).
+			excusable := tx.commitCall && tx.commitErr != nil && tx.CommitReqs > 0
 			other := ownMarker(r)
 			switch {
 			case other != nil && other.client != r.client:
